@@ -10,7 +10,9 @@
 (***************************************************************************)
 EXTENDS Wrap, Json
 
-CONSTANTS NCases, MaxMsgs, MaxLen
+CONSTANTS NCases, MaxMsgs, MaxLen,
+          CxPct,    \* chance (per step, in %) of ending the client's context where the grammar allows it
+          DlPct     \* share (in %) of scripts whose context carries a deadline
 VARIABLE c
 
 R(X) == RandomElement(X)
@@ -38,7 +40,7 @@ Weighted(L) == LET p == R(UNION { { <<e, k>> : k \in 1..Weight(e) } : e \in L })
 Pick(z, L) ==
   LET Lc == { e \in L : e.c \in {"cancel", "deadline"} }
       Ln == L \ Lc
-  IN IF Ln = {} \/ (Lc # {} /\ R(1..100) <= 7) THEN R(Lc) ELSE Weighted(Ln)
+  IN IF Ln = {} \/ (Lc # {} /\ R(1..100) <= CxPct) THEN R(Lc) ELSE Weighted(Ln)
 
 Finishers(L) == LET A == { e \in L : e.s = "return" /\ e.c = "-" } IN
                 IF A # {} THEN A ELSE { e \in L : e.c = "recv" /\ e.s = "-" }
@@ -57,7 +59,7 @@ ShapeW == <<"unary", "sstream", "sstream", "cstream", "cstream", "bidi", "bidi",
 Call(k) ==
   LET shape == ShapeW[(k % Len(ShapeW)) + 1]
       req == R(1..9)
-      steps == Walk(k, New(shape, req), <<>>, R(1..100) <= 15)
+      steps == Walk(k, New(shape, req), <<>>, R(1..100) <= DlPct)
   IN [n |-> k, kind |-> "call", shape |-> shape, req |-> req, steps |-> steps,
       dl |-> \E i \in 1..Len(steps) : steps[i].c = "deadline",
       via |-> "", method |-> "", svc |-> "", cs |-> FALSE, ss |-> FALSE]
